@@ -326,16 +326,17 @@ def check_graph(spec: dict, orders: list[list[int]], tag: str) -> tuple[list[dic
                 viols.append(core.viol(what, mech, point=point, got=payload, spec=spec, order=order, tag=tag))
         if len(viols) > 6:
             break
-    plain = [c for c in spec["components"] if c["kind"] == "variable" and "value" in c]
+    plain = [c for c in spec["components"] if c["kind"] in ("variable", "parameter") and "value" in c]
     if expect_vals is not None and plain and not viols:
         # a valid graph, evaluated, then one declared initial value changes: whatever names that variable (assignment-defined
         # parameters and initial values included, through any chain) sees the new finished value
         import copy
 
-        tgt = plain[_STATE["calls"] % len(plain)]["name"]
+        tgt_c = plain[_STATE["calls"] % len(plain)]
+        tgt = tgt_c["name"]
         sp2 = copy.deepcopy(spec)
         for c in sp2["components"]:
-            if c["kind"] == "variable" and c["name"] == tgt:
+            if c["kind"] == tgt_c["kind"] and c["name"] == tgt:
                 c["value"] = 3.25
         try:
             ref2 = rm.Ref(sp2)
@@ -345,7 +346,13 @@ def check_graph(spec: dict, orders: list[list[int]], tag: str) -> tuple[list[dic
         if ref2 is not None:
             model = rm.build(spec)
             model.get_args()  # (resolved once; _observe drops the resolution after every point, a session does not)
-            if _STATE["calls"] % 2:
+            if _STATE["calls"] % 3 == 0:
+                # the parameter values are read and put back as they are (what a routine does that restores a model)
+                model.update_parameters(model.get_parameter_values())
+                HISTORY["parameter values read and put back before an upstream edit"] = HISTORY.get("parameter values read and put back before an upstream edit", 0) + 1
+            if tgt_c["kind"] == "parameter":
+                model.update_parameter(tgt, 3.25) if _STATE["calls"] % 2 else model.update_parameters({tgt: 3.25})
+            elif _STATE["calls"] % 2:
                 model.update_variable(tgt, 3.25)
             else:
                 model.update_variables({tgt: 3.25})
@@ -514,7 +521,7 @@ def run_case(case: dict) -> dict:
     counters["sort_loop_iterations_monitored"] = int(_STATE["armed"])
     counters["max_iter_ratio_x1000"] = 0
     for how_, n_ in HISTORY.items():
-        counters[how_ if how_.startswith("initial value") else f"names removed after an evaluation ({how_})"] = n_
+        counters[how_ if how_.startswith(("initial value", "parameter values")) else f"names removed after an evaluation ({how_})"] = n_
     HISTORY.clear()
     res = core.result(sig=sig, nontrivial=True, sigs=sigs, violations=out, counters=counters, sample=sample,
                       info={"max_ratio": _STATE["max_ratio"], "n_graph_orders": counters["graph_x_order"]})
